@@ -33,6 +33,9 @@ Coll2Stores == { [i \in {1, 2} |-> Absent], [i \in {1, 2} |-> IF i = 1 THEN 1 EL
 \* fewer programs when subscribers multiply the interleavings
 SubValPrograms == { Set(1, 1), Set(1, 2), Inc(1, 1), Cas(1, 0, 3) }
 SubCollPrograms == { Set(1, 1), Add(1, 2), Upsert(1, 3), IncUp(1, 1), Del(1) }
+\* with an equivalence configured: writes of the value already there, an item removed and added again as it was
+EquivCollPrograms == { Set(1, 1), Upsert(1, 1), Add(1, 1), Upsert(1, 2), Del(1) }
+EquivValPrograms == { Set(1, 1), Set(1, 2), Cas(1, 1, 1) }
 \* the smallest setting in which a change can be both in a subscriber's snapshot and delivered to it
 AttackLossyPrograms == { IncUp(1, 1), Add(1, 2), Del(1) }
 AbsentStore == { [i \in {1} |-> Absent] }
